@@ -26,7 +26,7 @@ use zverif::{check, Fail, Tier};
 
 use zipora::blob_store::cached_store::CacheWriteStrategy;
 use zipora::blob_store::{BlobStore, CachedBlobStore, MemoryBlobStore};
-use zipora::cache::{CacheBuffer, LruPageCache, PageCacheConfig, SingleLruPageCache, PAGE_SIZE};
+use zipora::cache::{BufferPool, CacheBuffer, LruPageCache, PageCacheConfig, SingleLruPageCache, PAGE_SIZE};
 use zipora::containers::specialized::{
     ConcurrentLruMap, ConcurrentLruMapConfig, EvictionCallback, LoadBalancingStrategy, LruMap, LruMapConfig,
 };
@@ -64,9 +64,15 @@ pub trait MapLike {
     fn shard_sizes(&self) -> Option<Vec<usize>> {
         None
     }
+    fn is_empty(&self) -> bool;
+    /// None = not offered
+    fn rebalance(&self) -> Option<Result<(), String>> {
+        None
+    }
 }
 
-impl MapLike for LruMap<u64, u64, Recorder> {
+/// every flavour of `LruMap` (with the recorder or with the library's no-op callback)
+impl<E: EvictionCallback<u64, u64>> MapLike for LruMap<u64, u64, E> {
     fn get(&self, k: u64) -> Option<u64> {
         LruMap::get(self, &k)
     }
@@ -88,9 +94,12 @@ impl MapLike for LruMap<u64, u64, Recorder> {
     fn capacity(&self) -> usize {
         LruMap::capacity(self)
     }
+    fn is_empty(&self) -> bool {
+        LruMap::is_empty(self)
+    }
 }
 
-impl MapLike for ConcurrentLruMap<u64, u64, Recorder> {
+impl<E: EvictionCallback<u64, u64> + Send + Sync + Clone> MapLike for ConcurrentLruMap<u64, u64, E> {
     fn get(&self, k: u64) -> Option<u64> {
         ConcurrentLruMap::get(self, &k)
     }
@@ -114,6 +123,12 @@ impl MapLike for ConcurrentLruMap<u64, u64, Recorder> {
     }
     fn shard_sizes(&self) -> Option<Vec<usize>> {
         Some(ConcurrentLruMap::shard_sizes(self))
+    }
+    fn is_empty(&self) -> bool {
+        ConcurrentLruMap::is_empty(self)
+    }
+    fn rebalance(&self) -> Option<Result<(), String>> {
+        Some(ConcurrentLruMap::rebalance(self).map_err(|e| e.to_string()))
     }
 }
 
@@ -157,6 +172,8 @@ pub enum MapOp {
     Put(u64, u64),
     Remove(u64),
     Clear,
+    /// `ConcurrentLruMap::rebalance()`: may move entries between shards but must not change what the map answers
+    Rebalance,
 }
 
 pub struct RefLru {
@@ -232,6 +249,14 @@ pub struct LruSpec {
     pub keys: Vec<u64>,
     pub depth_quick: usize,
     pub depth_thorough: usize,
+    /// scripted prefix: the start state of every history is the state after these operations (applied to the real
+    /// map and the model through `apply`, i.e. judged like any other step)
+    pub prefix: Vec<MapOp>,
+    /// false: constructed without a recording callback (`new` / `with_config`): the callback clauses are not evaluated,
+    /// the victim is judged through get/contains_key only
+    pub has_callback: bool,
+    /// `rebalance()` is in the alphabet
+    pub rebalance: bool,
 }
 
 const ABSENT_KEY: u64 = 0xDEAD_0000_0000_0001;
@@ -254,18 +279,24 @@ impl SeqSpec for LruSpec {
             self.keys.iter().map(|k| if self.sharding == Sharding::Hash { hash_shard(*k, self.shards) } else { 0 }).collect::<Vec<_>>(),
             self.shards,
             self.per_shard_capacity
-        )
+        ) + &if self.prefix.is_empty() { String::new() } else { format!("; every history starts in the state after the scripted prefix {:?}", self.prefix) }
+            + if self.rebalance { "; rebalance() is a further operation of the alphabet (must not change any answer)" } else { "" }
+            + if self.has_callback { "" } else { "; constructed without a recording callback: callback clauses not evaluated, victims judged through get/contains_key/len" }
     }
     fn init(&self, _scratch: &Path) -> Result<MapSt, Fail> {
         let rec = Recorder::default();
         let map = (self.make)(rec.clone()).map_err(|e| Fail::new("construct", e))?;
         let nshards = if self.sharding == Sharding::Hash { self.shards } else { 1 };
         let cap = if self.sharding == Sharding::NoEvictionPossible { usize::MAX } else { self.per_shard_capacity };
-        Ok(MapSt {
+        let mut st = MapSt {
             map,
             rec,
             model: RefLru { shards: vec![VecDeque::new(); nshards], per_shard_capacity: cap, sharding: self.sharding, evicted: Vec::new() },
-        })
+        };
+        for op in &self.prefix {
+            self.apply(&mut st, op)?;
+        }
+        Ok(st)
     }
     fn ops(&self, _st: &MapSt) -> Vec<MapOp> {
         let mut v = Vec::new();
@@ -285,6 +316,9 @@ impl SeqSpec for LruSpec {
             v.push(MapOp::Remove(k));
         }
         v.push(MapOp::Clear);
+        if self.rebalance {
+            v.push(MapOp::Rebalance);
+        }
         v
     }
     fn apply(&self, st: &mut MapSt, op: &MapOp) -> Result<(), Fail> {
@@ -302,6 +336,7 @@ impl SeqSpec for LruSpec {
                         let log = st.rec.log();
                         let new = &log[log_before.min(log.len())..];
                         match victim {
+                            Some(_) if !self.has_callback => {}
                             Some((vk, vv)) => {
                                 if new.len() == 1 && new[0].0 != vk {
                                     return Err(failc(
@@ -349,6 +384,10 @@ impl SeqSpec for LruSpec {
                     st.model.clear();
                 }
             }
+            MapOp::Rebalance => {
+                // Ok or Err, the map must answer as before: the observers and the read-back judge that
+                let _ = st.map.rebalance();
+            }
         }
         Ok(())
     }
@@ -393,6 +432,11 @@ impl SeqSpec for LruSpec {
             }
         }
         check!(l == st.model.len(), "len", "len() = {l}, reference LRU holds {} entries", st.model.len());
+        let e = st.map.is_empty();
+        check!(e == (st.model.len() == 0), "len", "is_empty() = {e}, reference LRU holds {} entries", st.model.len());
+        if !self.has_callback {
+            return Ok(());
+        }
         let log = st.rec.log();
         if log != st.model.evicted {
             let class = if log.len() > st.model.evicted.len() { "extra" } else if log.len() < st.model.evicted.len() { "missing" } else { "wrong_entry" };
@@ -456,87 +500,245 @@ fn pick_keys(shards: usize, n_same: usize, n_other: usize) -> Vec<u64> {
     same
 }
 
+fn boxed<M: MapLike + 'static>(r: Result<M, zipora::error::ZiporaError>) -> Result<Box<dyn MapLike>, String> {
+    r.map(|m| Box::new(m) as Box<dyn MapLike>).map_err(|e| e.to_string())
+}
+
+impl LruSpec {
+    /// a subject with the recording callback, no prefix, no rebalance
+    fn plain(name: String, make: Box<dyn Fn(Recorder) -> Result<Box<dyn MapLike>, String>>, shards: usize, per: usize, sharding: Sharding, keys: Vec<u64>, dq: usize, dt: usize) -> Self {
+        LruSpec { name, make, shards, per_shard_capacity: per, sharding, keys, depth_quick: dq, depth_thorough: dt, prefix: Vec::new(), has_callback: true, rebalance: false }
+    }
+}
+
 fn register_maps(reg: &mut zverif::Registry) {
+    use MapOp::*;
     for cap in [1usize, 2, 3] {
-        let (dq, dt) = (4, 5);
-        reg.add(Seq(LruSpec {
-            name: format!("LruMap[default,capacity={cap}]"),
-            make: Box::new(move |rec| LruMap::with_eviction_callback(cap, rec).map(|m| Box::new(m) as Box<dyn MapLike>).map_err(|e| e.to_string())),
-            shards: 1,
-            per_shard_capacity: cap,
-            sharding: Sharding::Hash,
-            keys: vec![0, 1, 2, 3],
-            depth_quick: dq,
-            depth_thorough: dt,
-        }));
+        reg.add(Seq(LruSpec::plain(
+            format!("LruMap[default,capacity={cap}]"),
+            Box::new(move |rec| boxed(LruMap::with_eviction_callback(cap, rec))),
+            1,
+            cap,
+            Sharding::Hash,
+            vec![0, 1, 2, 3],
+            4,
+            5,
+        )));
     }
     // depth 6 over 3 keys (DESIGN §7 C17 B): capacity 2
-    reg.add(Seq(LruSpec {
-        name: "LruMap[default,capacity=2]/3keys".into(),
-        make: Box::new(move |rec| LruMap::with_eviction_callback(2, rec).map(|m| Box::new(m) as Box<dyn MapLike>).map_err(|e| e.to_string())),
-        shards: 1,
-        per_shard_capacity: 2,
-        sharding: Sharding::Hash,
-        keys: vec![0, 1, 2],
-        depth_quick: 4,
-        depth_thorough: 6,
-    }));
+    reg.add(Seq(LruSpec::plain(
+        "LruMap[default,capacity=2]/3keys".into(),
+        Box::new(move |rec| boxed(LruMap::with_eviction_callback(2, rec))),
+        1,
+        2,
+        Sharding::Hash,
+        vec![0, 1, 2],
+        4,
+        6,
+    )));
     for preset in ["performance_optimized", "memory_optimized", "security_optimized"] {
-        reg.add(Seq(LruSpec {
-            name: format!("LruMap[{preset},capacity=2]"),
-            make: Box::new(move |rec| {
-                LruMap::with_config_and_callback(lru_cfg(preset, 2), rec).map(|m| Box::new(m) as Box<dyn MapLike>).map_err(|e| e.to_string())
-            }),
-            shards: 1,
-            per_shard_capacity: 2,
-            sharding: Sharding::Hash,
-            keys: vec![0, 1, 2],
-            depth_quick: 4,
-            depth_thorough: 5,
-        }));
+        reg.add(Seq(LruSpec::plain(
+            format!("LruMap[{preset},capacity=2]"),
+            Box::new(move |rec| boxed(LruMap::with_config_and_callback(lru_cfg(preset, 2), rec))),
+            1,
+            2,
+            Sharding::Hash,
+            vec![0, 1, 2],
+            4,
+            5,
+        )));
     }
     for (shards, per) in [(1usize, 2usize), (2, 1), (2, 2), (4, 1)] {
         // three keys collide in shard 0 (evictions inside a shard), one key lives in another shard
         let keys = if shards == 1 { vec![0, 1, 2, 3] } else { pick_keys(shards, 3, 1) };
-        reg.add(Seq(LruSpec {
-            name: format!("ConcurrentLruMap[Hash,shards={shards},per_shard={per}]"),
-            make: Box::new(move |rec| {
-                ConcurrentLruMap::with_eviction_callback(shards * per, shards, rec).map(|m| Box::new(m) as Box<dyn MapLike>).map_err(|e| e.to_string())
-            }),
+        let mut spec = LruSpec::plain(
+            format!("ConcurrentLruMap[Hash,shards={shards},per_shard={per}]"),
+            Box::new(move |rec| boxed(ConcurrentLruMap::with_eviction_callback(shards * per, shards, rec))),
             shards,
-            per_shard_capacity: per,
-            sharding: Sharding::Hash,
+            per,
+            Sharding::Hash,
             keys,
-            depth_quick: 4,
-            depth_thorough: 5,
-        }));
+            4,
+            5,
+        );
+        spec.rebalance = true;
+        reg.add(Seq(spec));
     }
-    reg.add(Seq(LruSpec {
-        name: "ConcurrentLruMap[ThreadAffinity,shards=2,per_shard=2]".into(),
-        make: Box::new(move |rec| {
+    reg.add(Seq(LruSpec::plain(
+        "ConcurrentLruMap[ThreadAffinity,shards=2,per_shard=2]".into(),
+        Box::new(move |rec| {
             let cfg = ConcurrentLruMapConfig { base_config: lru_cfg("default", 2), shard_count: 2, load_balancing: LoadBalancingStrategy::ThreadAffinity };
-            ConcurrentLruMap::with_config_and_callback(cfg, rec).map(|m| Box::new(m) as Box<dyn MapLike>).map_err(|e| e.to_string())
+            boxed(ConcurrentLruMap::with_config_and_callback(cfg, rec))
         }),
-        shards: 2,
-        per_shard_capacity: 2,
-        sharding: Sharding::OneShard,
-        keys: vec![0, 1, 2],
-        depth_quick: 4,
-        depth_thorough: 5,
-    }));
-    reg.add(Seq(LruSpec {
-        name: "ConcurrentLruMap[RoundRobin,shards=2,per_shard=4]".into(),
-        make: Box::new(move |rec| {
+        2,
+        2,
+        Sharding::OneShard,
+        vec![0, 1, 2],
+        4,
+        5,
+    )));
+    reg.add(Seq(LruSpec::plain(
+        "ConcurrentLruMap[RoundRobin,shards=2,per_shard=4]".into(),
+        Box::new(move |rec| {
             let cfg = ConcurrentLruMapConfig { base_config: lru_cfg("default", 4), shard_count: 2, load_balancing: LoadBalancingStrategy::RoundRobin };
-            ConcurrentLruMap::with_config_and_callback(cfg, rec).map(|m| Box::new(m) as Box<dyn MapLike>).map_err(|e| e.to_string())
+            boxed(ConcurrentLruMap::with_config_and_callback(cfg, rec))
         }),
-        shards: 2,
-        per_shard_capacity: 4,
-        sharding: Sharding::NoEvictionPossible,
-        keys: vec![0, 1, 2],
-        depth_quick: 4,
-        depth_thorough: 5,
-    }));
+        2,
+        4,
+        Sharding::NoEvictionPossible,
+        vec![0, 1, 2],
+        4,
+        5,
+    )));
+
+    // ---- coverage audit: start states other than the empty map --------------------------------------------------
+    // full list of 3 with the MIDDLE node accessed last: every following get/remove/eviction works on a 3-node list
+    // whose head, middle and tail are all distinct from the insertion order
+    let mut s = LruSpec::plain(
+        "LruMap[default,capacity=3]/after[fill,get-middle]".into(),
+        Box::new(move |rec| boxed(LruMap::with_eviction_callback(3, rec))),
+        1,
+        3,
+        Sharding::Hash,
+        vec![0, 1, 2, 3],
+        4,
+        5,
+    );
+    s.prefix = vec![Put(0, 0), Put(1, 0), Put(2, 0), Get(1)];
+    reg.add(Seq(s));
+    // capacity 4 over 5 keys, after a remove of a middle node and the reuse of its slot (free list), one eviction done
+    let mut s = LruSpec::plain(
+        "LruMap[default,capacity=4]/after[fill,evict,remove-middle,reuse-slot]".into(),
+        Box::new(move |rec| boxed(LruMap::with_eviction_callback(4, rec))),
+        1,
+        4,
+        Sharding::Hash,
+        vec![0, 1, 2, 3, 4],
+        3,
+        4,
+    );
+    s.prefix = vec![Put(0, 0), Put(1, 0), Put(2, 0), Put(3, 0), Put(4, 0), Get(2), Remove(3), Put(0, 1)];
+    reg.add(Seq(s));
+    // after clear() of a map that has evicted: the free list must again hold exactly `capacity` slots
+    let mut s = LruSpec::plain(
+        "LruMap[default,capacity=2]/after[evict,clear]".into(),
+        Box::new(move |rec| boxed(LruMap::with_eviction_callback(2, rec))),
+        1,
+        2,
+        Sharding::Hash,
+        vec![0, 1, 2, 3],
+        4,
+        5,
+    );
+    s.prefix = vec![Put(0, 0), Put(1, 0), Get(0), Put(2, 0), Clear];
+    reg.add(Seq(s));
+    // both shards full, their recency orders interleaved in time
+    let keys22 = pick_keys(2, 2, 2);
+    let mut s = LruSpec::plain(
+        "ConcurrentLruMap[Hash,shards=2,per_shard=2]/2+2keys/after[fill both shards]".into(),
+        Box::new(move |rec| boxed(ConcurrentLruMap::with_eviction_callback(4, 2, rec))),
+        2,
+        2,
+        Sharding::Hash,
+        pick_keys(2, 3, 3),
+        3,
+        4,
+    );
+    s.prefix = vec![Put(keys22[0], 0), Put(keys22[2], 0), Put(keys22[1], 0), Put(keys22[3], 0), Get(keys22[0])];
+    s.rebalance = true;
+    reg.add(Seq(s));
+
+    // ---- coverage audit: two keys in EACH of two shards (evictions in both shards inside one history) ------------
+    let mut s = LruSpec::plain(
+        "ConcurrentLruMap[Hash,shards=2,per_shard=1]/2+2keys".into(),
+        Box::new(move |rec| boxed(ConcurrentLruMap::with_eviction_callback(2, 2, rec))),
+        2,
+        1,
+        Sharding::Hash,
+        pick_keys(2, 2, 2),
+        4,
+        5,
+    );
+    s.rebalance = true;
+    reg.add(Seq(s));
+
+    // ---- coverage audit: constructors / presets that were never instantiated ------------------------------------
+    // LruMap::new / with_config have their own copy of the construction code (no callback parameter)
+    for cap in [1usize, 2] {
+        let mut s = LruSpec::plain(
+            format!("LruMap::new[capacity={cap}]"),
+            Box::new(move |_rec| boxed(LruMap::<u64, u64>::new(cap))),
+            1,
+            cap,
+            Sharding::Hash,
+            vec![0, 1, 2],
+            4,
+            5,
+        );
+        s.has_callback = false;
+        reg.add(Seq(s));
+    }
+    let mut s = LruSpec::plain(
+        "LruMap::with_config[memory_optimized,capacity=2]".into(),
+        Box::new(move |_rec| boxed(LruMap::<u64, u64>::with_config(lru_cfg("memory_optimized", 2)))),
+        1,
+        2,
+        Sharding::Hash,
+        vec![0, 1, 2],
+        4,
+        5,
+    );
+    s.has_callback = false;
+    reg.add(Seq(s));
+    // ConcurrentLruMap::new: total capacity 5 over 2 shards = 2 per shard (the remainder is dropped)
+    let mut s = LruSpec::plain(
+        "ConcurrentLruMap::new[total=5,shards=2]".into(),
+        Box::new(move |_rec| boxed(ConcurrentLruMap::<u64, u64>::new(5, 2))),
+        2,
+        2,
+        Sharding::Hash,
+        pick_keys(2, 3, 1),
+        4,
+        5,
+    );
+    s.has_callback = false;
+    s.rebalance = true;
+    reg.add(Seq(s));
+    // the library presets of the sharded map (memory_optimized: 4 shards; performance_optimized: 2 x CPUs shards, refused by
+    // validate() when that is not a power of two -> construct error -> the subject reports nothing but the root)
+    let mut s = LruSpec::plain(
+        "ConcurrentLruMap[memory_optimized preset,shards=4,per_shard=1]".into(),
+        Box::new(move |rec| {
+            let mut cfg = ConcurrentLruMapConfig::memory_optimized();
+            cfg.base_config.capacity = 1;
+            boxed(ConcurrentLruMap::with_config_and_callback(cfg, rec))
+        }),
+        4,
+        1,
+        Sharding::Hash,
+        pick_keys(4, 2, 2),
+        4,
+        5,
+    );
+    s.rebalance = true;
+    reg.add(Seq(s));
+    let mut cfg = ConcurrentLruMapConfig::performance_optimized();
+    if cfg.validate().is_ok() {
+        let shards = cfg.shard_count;
+        cfg.base_config.capacity = 1;
+        let mut s = LruSpec::plain(
+            format!("ConcurrentLruMap[performance_optimized preset,shards=2xCPUs,per_shard=1]"),
+            Box::new(move |rec| boxed(ConcurrentLruMap::with_config_and_callback(cfg.clone(), rec))),
+            shards,
+            1,
+            Sharding::Hash,
+            pick_keys(shards, 2, 1),
+            4,
+            5,
+        );
+        s.rebalance = true;
+        reg.add(Seq(s));
+    }
 }
 
 // =============================================================================================
@@ -550,6 +752,13 @@ pub trait PageCacheLike {
     fn prefetch(&self, f: u32, off: u64, len: usize) -> Result<(), String>;
     fn invalidate_page(&self, f: u32, page: u32) -> Result<(), String>;
     fn invalidate_range(&self, f: u32, off: u64, len: usize) -> Result<(), String>;
+    /// None = not offered
+    fn read_with_prefetch(&self, _f: u32, _off: u64, _len: usize, _ahead: usize) -> Option<Result<Vec<u8>, String>> {
+        None
+    }
+    fn mark_dirty(&self, f: u32, page: u32) -> Result<(), String>;
+    fn flush_file(&self, f: u32) -> Result<(), String>;
+    fn close(&self, f: u32) -> Result<(), String>;
 }
 
 impl PageCacheLike for LruPageCache {
@@ -571,6 +780,18 @@ impl PageCacheLike for LruPageCache {
     fn invalidate_range(&self, f: u32, off: u64, len: usize) -> Result<(), String> {
         LruPageCache::invalidate_range(self, f, off, len).map_err(|e| e.to_string())
     }
+    fn read_with_prefetch(&self, f: u32, off: u64, len: usize, ahead: usize) -> Option<Result<Vec<u8>, String>> {
+        Some(LruPageCache::read_with_prefetch(self, f, off, len, ahead).map(|b| b.data().to_vec()).map_err(|e| e.to_string()))
+    }
+    fn mark_dirty(&self, f: u32, page: u32) -> Result<(), String> {
+        LruPageCache::mark_dirty(self, f, page).map_err(|e| e.to_string())
+    }
+    fn flush_file(&self, f: u32) -> Result<(), String> {
+        LruPageCache::flush_file(self, f).map_err(|e| e.to_string())
+    }
+    fn close(&self, f: u32) -> Result<(), String> {
+        LruPageCache::close_file(self, f).map_err(|e| e.to_string())
+    }
 }
 
 /// `SingleLruPageCache`; `into_buffer` selects `read(.., &mut CacheBuffer)` instead of `read_new`.
@@ -580,13 +801,24 @@ pub struct SingleAdapter {
     /// Some: every `read` goes into this one caller-owned buffer, never cleared by the caller (the documented way to
     /// avoid an allocation per read); None: a fresh buffer per read
     reused: Option<std::sync::Mutex<CacheBuffer>>,
+    /// Some: every `read` takes its buffer from this `BufferPool` and hands it back afterwards
+    pool: Option<BufferPool>,
 }
 impl PageCacheLike for SingleAdapter {
     fn open(&self, p: &Path) -> Result<u32, String> {
         self.cache.open_file(p).map_err(|e| e.to_string())
     }
     fn read(&self, f: u32, off: u64, len: usize) -> Result<Vec<u8>, String> {
-        if let Some(shared) = &self.reused {
+        if let Some(pool) = &self.pool {
+            let mut b = pool.get();
+            if !b.data().is_empty() {
+                return Err(format!("BufferPool::get() handed out a buffer that still holds {} bytes of an earlier read", b.data().len()));
+            }
+            let r = self.cache.read(f, off, len, &mut b).map_err(|e| e.to_string());
+            let out = b.data().to_vec();
+            pool.put(b);
+            r.map(|_| out)
+        } else if let Some(shared) = &self.reused {
             let mut b = shared.lock().unwrap();
             self.cache.read(f, off, len, &mut b).map_err(|e| e.to_string())?;
             Ok(b.data().to_vec())
@@ -610,10 +842,25 @@ impl PageCacheLike for SingleAdapter {
     fn invalidate_range(&self, f: u32, off: u64, len: usize) -> Result<(), String> {
         self.cache.invalidate_range(f, off, len).map_err(|e| e.to_string())
     }
+    fn mark_dirty(&self, f: u32, page: u32) -> Result<(), String> {
+        self.cache.mark_dirty(f, page).map_err(|e| e.to_string())
+    }
+    fn flush_file(&self, f: u32) -> Result<(), String> {
+        self.cache.flush_file(f).map_err(|e| e.to_string())
+    }
+    fn close(&self, f: u32) -> Result<(), String> {
+        self.cache.close_file(f).map_err(|e| e.to_string())
+    }
 }
 
 const F0_SIZE: usize = 2 * PAGE_SIZE + PAGE_SIZE / 2; // 2.5 pages
 const EOF0: u64 = F0_SIZE as u64;
+/// a second NON-EMPTY file (coverage audit): one page + 100 bytes whose pages 0 and 1 differ from file 0's
+const F2_SIZE: usize = PAGE_SIZE + 100;
+const EOF2: u64 = F2_SIZE as u64;
+fn file2_byte(i: usize) -> u8 {
+    ((i * 13 + 5 + (i / PAGE_SIZE) * 3) % 241) as u8 ^ 0x80
+}
 
 fn file_byte(generation: u32, i: usize) -> u8 {
     ((i * 31 + (i / PAGE_SIZE) * 7 + generation as usize * 101) % 251) as u8
@@ -633,6 +880,15 @@ pub enum PcOp {
     /// rewrite bytes [off, off+len) of file 0 from outside, then invalidate_range(off, len) with exactly that
     /// (unaligned, page-straddling) range
     OverwriteRangeThenInvalidate(u64, usize),
+    // ---- coverage audit (appended) ----
+    /// read_with_prefetch(f, off, len, prefetch_ahead) (LruPageCache only; a no-op where not offered)
+    ReadWithPrefetch(u8, u64, usize, usize),
+    MarkDirty(u8, u32),
+    FlushFile(u8),
+    /// close_file(f) and open_file(path of f) again: later operations use the new file id
+    CloseReopen(u8),
+    /// rewrite page 1 of file 0 from outside, then close_file + open_file instead of an invalidation
+    OverwritePage1ThenCloseReopen,
 }
 
 impl fmt::Debug for PcOp {
@@ -646,15 +902,20 @@ impl fmt::Debug for PcOp {
             PcOp::OverwriteAllThenInvalidate => write!(f, "OverwriteAllThenInvalidate"),
             PcOp::OverwritePage1ThenInvalidate => write!(f, "OverwritePage1ThenInvalidate"),
             PcOp::OverwriteRangeThenInvalidate(o, l) => write!(f, "OverwriteRangeThenInvalidate({o},{l})"),
+            PcOp::ReadWithPrefetch(x, o, l, a) => write!(f, "ReadWithPrefetch(f{x},{o},{l},ahead={a})"),
+            PcOp::MarkDirty(x, p) => write!(f, "MarkDirty(f{x},{p})"),
+            PcOp::FlushFile(x) => write!(f, "FlushFile(f{x})"),
+            PcOp::CloseReopen(x) => write!(f, "CloseReopen(f{x})"),
+            PcOp::OverwritePage1ThenCloseReopen => write!(f, "OverwritePage1ThenCloseReopen"),
         }
     }
 }
 
 pub struct PcSt {
     cache: Box<dyn PageCacheLike>,
-    fids: [u32; 2],
-    files: [Vec<u8>; 2],
-    paths: [PathBuf; 2],
+    fids: [u32; 3],
+    files: [Vec<u8>; 3],
+    paths: [PathBuf; 3],
     generation: u32,
     dir: PathBuf,
 }
@@ -666,6 +927,8 @@ pub struct PcSpec {
     pub straddle_eof: bool,
     pub depth_quick: usize,
     pub depth_thorough: usize,
+    /// offsets at and beyond the point where `offset / PAGE_SIZE` no longer fits the 32-bit page id are part of the final sweep
+    pub huge_offsets: bool,
 }
 
 /// the bytes of the file at [off, off+len)
@@ -703,18 +966,23 @@ fn judge_read(what: &str, file: &[u8], off: u64, len: usize, got: Result<Vec<u8>
 
 impl PcSpec {
     fn offsets(f: usize) -> Vec<u64> {
-        if f == 0 {
-            vec![0, 1, 4095, 4096, 4097, EOF0 - 1, EOF0, EOF0 + 1]
-        } else {
-            vec![0, 1]
+        match f {
+            0 => vec![0, 1, 4095, 4096, 4097, EOF0 - 1, EOF0, EOF0 + 1],
+            1 => vec![0, 1],
+            _ => vec![0, 4095, 4096, EOF2 - 1, EOF2],
         }
     }
     fn lengths(f: usize) -> Vec<usize> {
-        if f == 0 {
-            vec![0, 1, 4096, 4097]
-        } else {
-            vec![0, 1, 4096]
+        match f {
+            0 => vec![0, 1, 4096, 4097],
+            1 => vec![0, 1, 4096],
+            _ => vec![1, 100, 4096],
         }
+    }
+    /// offsets around 2^44 = 2^32 pages (the page id is a u32) and at the top of the u64 range; all far beyond EOF
+    fn huge() -> Vec<(u64, usize)> {
+        let wrap = (PAGE_SIZE as u64) << 32;
+        vec![(wrap - 1, 1), (wrap - 1, 2), (wrap, 1), (wrap + 1, 4096), (wrap + 4096, 1), (wrap + EOF0 - 1, 1), (u64::MAX - 4096, 1), (u64::MAX - 1, 1)]
     }
 }
 
@@ -737,7 +1005,12 @@ impl SeqSpec for PcSpec {
             Self::offsets(1),
             Self::lengths(1),
             if self.straddle_eof { " including ranges that straddle EOF" } else { " except ranges that start inside the file and end beyond EOF (see the /straddle_eof subject)" }
-        )
+        ) + &format!(
+            "; coverage audit: a third file (file 2, {} bytes, contents different from file 0) with 2 reads in the alphabet and the grid {:?} x {:?} in the final sweep; further operations read_with_prefetch, mark_dirty, flush_file, close_file+open_file (with and without an external overwrite before it)",
+            F2_SIZE,
+            Self::offsets(2),
+            Self::lengths(2)
+        ) + &if self.huge_offsets { format!("; the final sweep also reads at the huge offsets {:?} (all beyond EOF: the file has no bytes there)", Self::huge()) } else { String::new() }
     }
     fn init(&self, scratch: &Path) -> Result<PcSt, Fail> {
         let dir = scratch.join(format!("c17-{:016x}", h64(&self.name)));
@@ -745,13 +1018,16 @@ impl SeqSpec for PcSpec {
         std::fs::create_dir_all(&dir).map_err(|e| Fail::new("harness", e.to_string()))?;
         let f0: Vec<u8> = (0..F0_SIZE).map(|i| file_byte(0, i)).collect();
         let f1: Vec<u8> = Vec::new();
-        let paths = [dir.join("f0"), dir.join("f1")];
+        let f2: Vec<u8> = (0..F2_SIZE).map(file2_byte).collect();
+        let paths = [dir.join("f0"), dir.join("f1"), dir.join("f2")];
         std::fs::write(&paths[0], &f0).map_err(|e| Fail::new("harness", e.to_string()))?;
         std::fs::write(&paths[1], &f1).map_err(|e| Fail::new("harness", e.to_string()))?;
+        std::fs::write(&paths[2], &f2).map_err(|e| Fail::new("harness", e.to_string()))?;
         let cache = (self.make)().map_err(|e| Fail::new("construct", e))?;
         let a = cache.open(&paths[0]).map_err(|e| Fail::new("construct", e))?;
         let b = cache.open(&paths[1]).map_err(|e| Fail::new("construct", e))?;
-        Ok(PcSt { cache, fids: [a, b], files: [f0, f1], paths, generation: 0, dir })
+        let c = cache.open(&paths[2]).map_err(|e| Fail::new("construct", e))?;
+        Ok(PcSt { cache, fids: [a, b, c], files: [f0, f1, f2], paths, generation: 0, dir })
     }
     fn ops(&self, _st: &PcSt) -> Vec<PcOp> {
         let p = PAGE_SIZE;
@@ -777,6 +1053,14 @@ impl SeqSpec for PcSpec {
             // unaligned ranges whose tail crosses one more page boundary than their length suggests
             PcOp::OverwriteRangeThenInvalidate(4000, 200),
             PcOp::OverwriteRangeThenInvalidate(4095, 4098),
+            // coverage audit (appended): a second non-empty file, the remaining public operations, close + reopen
+            PcOp::Read(2, 0, 1),
+            PcOp::Read(2, 4000, 196),
+            PcOp::ReadWithPrefetch(0, 4090, 10, 2 * p),
+            PcOp::MarkDirty(0, 1),
+            PcOp::FlushFile(0),
+            PcOp::CloseReopen(0),
+            PcOp::OverwritePage1ThenCloseReopen,
         ]
     }
     fn apply(&self, st: &mut PcSt, op: &PcOp) -> Result<(), Fail> {
@@ -810,6 +1094,34 @@ impl SeqSpec for PcSpec {
                 st.cache
                     .invalidate_range(st.fids[*f as usize], *off, *len)
                     .map_err(|e| failc("invalidate", "err", format!("invalidate_range({off},{len}) = Err({e})")))?;
+            }
+            PcOp::ReadWithPrefetch(f, off, len, ahead) => {
+                if let Some(got) = st.cache.read_with_prefetch(st.fids[*f as usize], *off, *len, *ahead) {
+                    judge_read("read_with_prefetch", &st.files[*f as usize], *off, *len, got)?;
+                }
+            }
+            PcOp::MarkDirty(f, p) => {
+                // the cache has no write path: a page marked dirty still holds the bytes of the file
+                st.cache.mark_dirty(st.fids[*f as usize], *p).map_err(|e| failc("invalidate", "err", format!("mark_dirty({p}) = Err({e})")))?;
+            }
+            PcOp::FlushFile(f) => {
+                st.cache.flush_file(st.fids[*f as usize]).map_err(|e| failc("invalidate", "err", format!("flush_file = Err({e})")))?;
+            }
+            PcOp::CloseReopen(_) | PcOp::OverwritePage1ThenCloseReopen => {
+                let f = if let PcOp::CloseReopen(f) = op { *f as usize } else { 0 };
+                if *op == PcOp::OverwritePage1ThenCloseReopen {
+                    st.generation += 1;
+                    for i in PAGE_SIZE..2 * PAGE_SIZE {
+                        st.files[0][i] = file_byte(st.generation, i);
+                    }
+                    let io = |e: std::io::Error| Fail::new("harness", e.to_string());
+                    let mut fh = std::fs::OpenOptions::new().write(true).open(&st.paths[0]).map_err(io)?;
+                    fh.seek(SeekFrom::Start(PAGE_SIZE as u64)).map_err(io)?;
+                    fh.write_all(&st.files[0][PAGE_SIZE..2 * PAGE_SIZE]).map_err(io)?;
+                    fh.sync_all().map_err(io)?;
+                }
+                st.cache.close(st.fids[f]).map_err(|e| failc("invalidate", "err", format!("close_file = Err({e})")))?;
+                st.fids[f] = st.cache.open(&st.paths[f]).map_err(|e| failc("invalidate", "err", format!("open_file after close_file = Err({e})")))?;
             }
             PcOp::OverwriteAllThenInvalidate | PcOp::OverwritePage1ThenInvalidate | PcOp::OverwriteRangeThenInvalidate(..) => {
                 st.generation += 1;
@@ -845,7 +1157,26 @@ impl SeqSpec for PcSpec {
     }
     fn finish(&self, st: PcSt) -> Result<(), Fail> {
         let mut r = Ok(());
-        'outer: for f in 0..2usize {
+        if self.huge_offsets {
+            for (off, len) in Self::huge() {
+                // file_range() works on usize offsets within the file: everything here is beyond EOF
+                let verdict = match zverif::util::catch(|| st.cache.read(st.fids[0], off, len)) {
+                    Err(p) => Err(failc("read_bytes", "panic/beyond_eof/page_number>=2^32", format!("read(off={off}, len={len}) {}; the file (size {}) has no bytes there, an empty result is expected as for every other offset beyond EOF", p.detail, st.files[0].len()))),
+                    Ok(got) => match got {
+                    Ok(g) if g.is_empty() => Ok(()),
+                    Ok(g) => Err(failc("read_bytes", "long/beyond_eof", format!("read(off={off}, len={len}) returned {} but the file (size {}) has no bytes there", brief(&g), st.files[0].len()))),
+                    Err(e) => Err(failc("read_bytes", "err/beyond_eof", format!("read(off={off}, len={len}) = Err({e}); the file (size {}) has no bytes there, an empty result is expected as for every other offset beyond EOF", st.files[0].len()))),
+                    },
+                };
+                if let Err(e) = verdict {
+                    let dir = st.dir.clone();
+                    drop(st);
+                    let _ = std::fs::remove_dir_all(dir);
+                    return Err(e);
+                }
+            }
+        }
+        'outer: for f in 0..3usize {
             for off in Self::offsets(f) {
                 for len in Self::lengths(f) {
                     let size = st.files[f].len();
@@ -873,48 +1204,245 @@ fn page_cfg(pages: usize) -> PageCacheConfig {
     PageCacheConfig::balanced().with_capacity(pages * PAGE_SIZE)
 }
 
+fn pc_spec(name: String, make: Box<dyn Fn() -> Result<Box<dyn PageCacheLike>, String>>, dq: usize, dt: usize) -> PcSpec {
+    PcSpec { name, make, straddle_eof: false, depth_quick: dq, depth_thorough: dt, huge_offsets: false }
+}
+
+fn lru_pc(cfg: PageCacheConfig) -> Result<Box<dyn PageCacheLike>, String> {
+    LruPageCache::new(cfg).map(|c| Box::new(c) as Box<dyn PageCacheLike>).map_err(|e| e.to_string())
+}
+
 fn register_page_caches(reg: &mut zverif::Registry) {
     for pages in [1usize, 2, 3] {
-        reg.add(Seq(PcSpec {
-            name: format!("LruPageCache[pages={pages}]"),
-            make: Box::new(move || LruPageCache::new(page_cfg(pages)).map(|c| Box::new(c) as Box<dyn PageCacheLike>).map_err(|e| e.to_string())),
-            straddle_eof: false,
-            depth_quick: 3,
-            depth_thorough: 4,
-        }));
+        reg.add(Seq(pc_spec(format!("LruPageCache[pages={pages}]"), Box::new(move || lru_pc(page_cfg(pages))), 3, 4)));
     }
-    reg.add(Seq(PcSpec {
-        name: "LruPageCache[pages=2]/straddle_eof".into(),
-        make: Box::new(move || LruPageCache::new(page_cfg(2)).map(|c| Box::new(c) as Box<dyn PageCacheLike>).map_err(|e| e.to_string())),
-        straddle_eof: true,
-        depth_quick: 1,
-        depth_thorough: 2,
-    }));
-    for (pages, into_buffer, reuse) in [(1usize, false, false), (2, true, false), (2, true, true)] {
-        reg.add(Seq(PcSpec {
-            name: format!("SingleLruPageCache[pages={pages},{}]", if reuse { "read into one reused buffer" } else if into_buffer { "read" } else { "read_new" }),
-            make: Box::new(move || {
+    let mut s = pc_spec("LruPageCache[pages=2]/straddle_eof".into(), Box::new(move || lru_pc(page_cfg(2))), 1, 2);
+    s.straddle_eof = true;
+    reg.add(Seq(s));
+    // (pages, into_buffer, reuse one buffer, take the buffer from a BufferPool)
+    for (pages, into_buffer, reuse, pooled) in [(1usize, false, false, false), (2, true, false, false), (2, true, true, false), (2, true, false, true)] {
+        reg.add(Seq(pc_spec(
+            format!(
+                "SingleLruPageCache[pages={pages},{}]",
+                if pooled { "read into a BufferPool buffer" } else if reuse { "read into one reused buffer" } else if into_buffer { "read" } else { "read_new" }
+            ),
+            Box::new(move || {
                 SingleLruPageCache::new(page_cfg(pages))
-                    .map(|c| Box::new(SingleAdapter { cache: c, into_buffer, reused: if reuse { Some(std::sync::Mutex::new(CacheBuffer::new())) } else { None } }) as Box<dyn PageCacheLike>)
+                    .map(|c| {
+                        Box::new(SingleAdapter {
+                            cache: c,
+                            into_buffer,
+                            reused: if reuse { Some(std::sync::Mutex::new(CacheBuffer::new())) } else { None },
+                            pool: if pooled { Some(BufferPool::new(1)) } else { None },
+                        }) as Box<dyn PageCacheLike>
+                    })
                     .map_err(|e| e.to_string())
             }),
-            straddle_eof: false,
-            depth_quick: 3,
-            depth_thorough: 4,
-        }));
+            3,
+            4,
+        )));
     }
     for preset in ["memory_optimized", "security_optimized"] {
-        reg.add(Seq(PcSpec {
-            name: format!("LruPageCache[{preset},pages=2]"),
-            make: Box::new(move || {
+        reg.add(Seq(pc_spec(
+            format!("LruPageCache[{preset},pages=2]"),
+            Box::new(move || {
                 let cfg = if preset == "memory_optimized" { PageCacheConfig::memory_optimized() } else { PageCacheConfig::security_optimized() };
-                LruPageCache::new(cfg.with_capacity(2 * PAGE_SIZE)).map(|c| Box::new(c) as Box<dyn PageCacheLike>).map_err(|e| e.to_string())
+                lru_pc(cfg.with_capacity(2 * PAGE_SIZE))
             }),
-            straddle_eof: false,
-            depth_quick: 2,
-            depth_thorough: 3,
-        }));
+            2,
+            3,
+        )));
     }
+    // ---- coverage audit --------------------------------------------------------------------------------------------
+    // capacities that are not a whole number of pages: 0.5 page (capacity / PAGE_SIZE == 0: every insertion evicts first)
+    // and 1.5 pages
+    for (label, bytes) in [("0.5", PAGE_SIZE / 2), ("1.5", PAGE_SIZE + PAGE_SIZE / 2)] {
+        reg.add(Seq(pc_spec(format!("LruPageCache[capacity={label} pages]"), Box::new(move || lru_pc(PageCacheConfig::balanced().with_capacity(bytes))), 2, 3)));
+    }
+    // the remaining presets / builder options: performance_optimized (huge pages off: with them validate() wants >= 2 MiB),
+    // Default::default(), every shard count the builder accepts in {1, 8, 64}
+    reg.add(Seq(pc_spec(
+        "LruPageCache[performance_optimized,no huge pages,pages=2]".into(),
+        Box::new(move || lru_pc(PageCacheConfig::performance_optimized().with_huge_pages(false).with_capacity(2 * PAGE_SIZE))),
+        2,
+        3,
+    )));
+    for shards in [1u32, 8, 64] {
+        reg.add(Seq(pc_spec(
+            format!("LruPageCache[default,shards={shards},prefetch off,statistics off,pages=2]"),
+            Box::new(move || lru_pc(PageCacheConfig::default().with_shards(shards).with_prefetch(false).with_statistics(false).with_load_factor(0.5).with_capacity(2 * PAGE_SIZE))),
+            2,
+            3,
+        )));
+    }
+    // performance_optimized as it comes (huge pages on): the smallest capacity validate() accepts is one huge page = 512
+    // cache pages, more than the three files together: no eviction, every page is served from the cache on its second read
+    reg.add(Seq(pc_spec(
+        "LruPageCache[performance_optimized,capacity=2MiB]".into(),
+        Box::new(move || lru_pc(PageCacheConfig::performance_optimized().with_capacity(zipora::cache::HUGE_PAGE_SIZE))),
+        2,
+        3,
+    )));
+    // offsets whose page number does not fit the 32-bit page id
+    let mut s = pc_spec("LruPageCache[pages=2]/huge_offsets".into(), Box::new(move || lru_pc(page_cfg(2))), 1, 2);
+    s.huge_offsets = true;
+    reg.add(Seq(s));
+}
+
+// =============================================================================================
+// CacheBuffer / BufferPool (coverage audit): the caller-owned object every page-cache read ends in.  "bytes in CacheBuffer" is
+// one of the property's observation points: whatever sequence of copy/extend/clear/reserve/pool round trips a buffer
+// has been through, data() must be exactly the bytes last put into it — never bytes of an earlier use.
+
+#[derive(Clone, Debug)]
+pub enum BufOp {
+    /// copy_from_slice(pattern) into slot
+    Copy(u8, &'static str),
+    /// extend_from_slice(pattern)
+    Extend(u8, &'static str),
+    Clear(u8),
+    /// reserve(n) — must not change data()
+    Reserve(u8, usize),
+    /// replace the slot by CacheBuffer::from_data(pattern)
+    FromData(u8, &'static str),
+    /// hand the slot's buffer to the pool (the slot gets a fresh CacheBuffer::new())
+    PoolPut(u8),
+    /// replace the slot's buffer by pool.get(): must be empty whatever it held when it was put back
+    PoolGet(u8),
+}
+
+fn buf_pattern(name: &str) -> Vec<u8> {
+    match name {
+        "" => Vec::new(),
+        "a" => b"a".to_vec(),
+        "bcd" => b"bcd".to_vec(),
+        // longer than a page and than any small-vector capacity
+        _ => (0..5000u32).map(|i| (i % 253) as u8 + 1).collect(),
+    }
+}
+
+pub struct BufSt {
+    slots: [CacheBuffer; 2],
+    model: [Vec<u8>; 2],
+    pool: BufferPool,
+    /// number of buffers the pool holds according to the model (max_size 1)
+    pooled: usize,
+    /// reserve() was called on the slot's buffer since its contents were last written (failure class only)
+    reserved: [bool; 2],
+}
+
+pub struct BufSpec {
+    pub depth_quick: usize,
+    pub depth_thorough: usize,
+    /// reserve() is in the alphabet (separate subject: see the finding on reserve)
+    pub with_reserve: bool,
+}
+
+impl SeqSpec for BufSpec {
+    type Op = BufOp;
+    type St = BufSt;
+    fn name(&self) -> String {
+        if self.with_reserve { "CacheBuffer+BufferPool/with reserve".into() } else { "CacheBuffer+BufferPool".into() }
+    }
+    fn depth(&self, tier: Tier) -> usize {
+        tier.pick(self.depth_quick, self.depth_thorough)
+    }
+    fn bound(&self, tier: Tier) -> String {
+        format!(
+            "all histories of <= {} operations over two CacheBuffers and a BufferPool(max 1) from {{copy_from_slice(p), extend_from_slice(p) for p in [empty, 1 byte, 3 bytes, 5000 bytes] (slot 1: 1 byte only), clear, from_data, pool.put, pool.get{}}}; after every step data()/len()/is_empty() of both buffers == the bytes the model holds, has_data() is false for a cleared/new/pool-fresh buffer, pool.stats().available_count == model",
+            self.depth(tier),
+            if self.with_reserve { ", reserve(64 KiB) / reserve(1)" } else { "" }
+        )
+    }
+    fn init(&self, _scratch: &Path) -> Result<BufSt, Fail> {
+        Ok(BufSt { slots: [CacheBuffer::new(), CacheBuffer::new()], model: [Vec::new(), Vec::new()], pool: BufferPool::new(1), pooled: 0, reserved: [false; 2] })
+    }
+    fn ops(&self, _st: &BufSt) -> Vec<BufOp> {
+        let mut v = Vec::new();
+        for p in ["a", "bcd", "", "big"] {
+            v.push(BufOp::Copy(0, p));
+        }
+        for p in ["a", "bcd", "", "big"] {
+            v.push(BufOp::Extend(0, p));
+        }
+        v.push(BufOp::Clear(0));
+        v.push(BufOp::FromData(0, "bcd"));
+        v.push(BufOp::PoolPut(0));
+        v.push(BufOp::PoolGet(0));
+        v.push(BufOp::Copy(1, "a"));
+        v.push(BufOp::Extend(1, "a"));
+        v.push(BufOp::PoolPut(1));
+        v.push(BufOp::PoolGet(1));
+        if self.with_reserve {
+            v.push(BufOp::Reserve(0, 64 * 1024));
+            v.push(BufOp::Reserve(0, 1));
+        }
+        v
+    }
+    fn apply(&self, st: &mut BufSt, op: &BufOp) -> Result<(), Fail> {
+        match *op {
+            BufOp::Reserve(s, _) => st.reserved[s as usize] = true,
+            BufOp::Extend(_, "") => {}
+            BufOp::Copy(s, _) | BufOp::Extend(s, _) | BufOp::Clear(s) | BufOp::FromData(s, _) | BufOp::PoolPut(s) | BufOp::PoolGet(s) => st.reserved[s as usize] = false,
+        }
+        match *op {
+            BufOp::Copy(s, p) => {
+                st.slots[s as usize].copy_from_slice(&buf_pattern(p));
+                st.model[s as usize] = buf_pattern(p);
+            }
+            BufOp::Extend(s, p) => {
+                st.slots[s as usize].extend_from_slice(&buf_pattern(p));
+                st.model[s as usize].extend_from_slice(&buf_pattern(p));
+            }
+            BufOp::Clear(s) => {
+                st.slots[s as usize].clear();
+                st.model[s as usize].clear();
+                check!(!st.slots[s as usize].has_data(), "buffer_bytes", "has_data() is true right after clear()");
+            }
+            BufOp::Reserve(s, n) => st.slots[s as usize].reserve(n),
+            BufOp::FromData(s, p) => {
+                st.slots[s as usize] = CacheBuffer::from_data(buf_pattern(p));
+                st.model[s as usize] = buf_pattern(p);
+            }
+            BufOp::PoolPut(s) => {
+                let b = std::mem::replace(&mut st.slots[s as usize], CacheBuffer::new());
+                st.pool.put(b);
+                st.model[s as usize].clear();
+                st.pooled = 1; // max_size 1: a second buffer is dropped
+            }
+            BufOp::PoolGet(s) => {
+                st.slots[s as usize] = st.pool.get();
+                st.model[s as usize].clear();
+                st.pooled = 0;
+                let b = &st.slots[s as usize];
+                if b.has_data() || !b.data().is_empty() {
+                    return Err(failc("buffer_bytes", "pool_get_not_empty", format!("BufferPool::get() returned a buffer with has_data() = {} holding {}", b.has_data(), brief(b.data()))));
+                }
+            }
+        }
+        Ok(())
+    }
+    fn observe(&self, st: &mut BufSt, h: &mut DefaultHasher) -> Result<(), Fail> {
+        st.model.hash(h);
+        st.pooled.hash(h);
+        for i in 0..2 {
+            let d = st.slots[i].data();
+            if d != &st.model[i][..] {
+                let class = format!("{}{}", if d.len() != st.model[i].len() { "wrong_length" } else { "wrong_bytes" }, if st.reserved[i] { "/after_reserve" } else { "" });
+                return Err(failc("buffer_bytes", &class, format!("buffer {i}: data() = {}, the bytes put into it are {}", brief(d), brief(&st.model[i]))));
+            }
+            check!(st.slots[i].len() == st.model[i].len(), "buffer_bytes", "buffer {i}: len() = {}, model {}", st.slots[i].len(), st.model[i].len());
+            check!(st.slots[i].is_empty() == st.model[i].is_empty(), "buffer_bytes", "buffer {i}: is_empty() = {}, model holds {} bytes", st.slots[i].is_empty(), st.model[i].len());
+        }
+        let a = st.pool.stats().available_count;
+        check!(a == st.pooled, "buffer_bytes", "pool.stats().available_count = {a}, model {}", st.pooled);
+        Ok(())
+    }
+}
+
+fn register_buffers(reg: &mut zverif::Registry) {
+    reg.add(Seq(BufSpec { depth_quick: 4, depth_thorough: 5, with_reserve: false }));
+    reg.add(Seq(BufSpec { depth_quick: 2, depth_thorough: 3, with_reserve: true }));
 }
 
 // =============================================================================================
@@ -926,6 +1454,18 @@ pub enum CbOp {
     Remove(usize),
     DisableCache,
     EnableCache,
+    // ---- coverage audit (appended) ----
+    /// set_write_strategy(the next of WriteThrough -> WriteBack -> WriteAround -> WriteThrough)
+    NextStrategy,
+    /// prefetch_range(0, 2 pages)
+    PrefetchRange,
+    Flush,
+    /// put / remove directly on the wrapped store through inner_mut(), behind the cache's back
+    InnerPut(&'static str),
+    InnerRemove(usize),
+    /// the same on a second CachedBlobStore that shares the page cache (SharedCache subjects only)
+    PutB(&'static str),
+    RemoveB(usize),
 }
 
 fn cb_record(name: &str) -> Vec<u8> {
@@ -933,6 +1473,7 @@ fn cb_record(name: &str) -> Vec<u8> {
         "e" => Vec::new(),
         "zz" => b"zz".to_vec(),
         "c300" => (0..300u32).map(|i| (i % 256) as u8).collect(),
+        "q9000" => (0..9000u32).map(|i| (i % 239) as u8 ^ 0x55).collect(), // longer than two cache pages
         _ => (0..4000u32).map(|i| (i % 251) as u8).collect(), // p4000: two of them straddle a cache page
     }
 }
@@ -940,6 +1481,19 @@ fn cb_record(name: &str) -> Vec<u8> {
 pub struct CbSt {
     store: CachedBlobStore<MemoryBlobStore>,
     issued: Vec<u32>,
+    /// SharedCache: a second store on the same Arc<LruPageCache>
+    store_b: Option<CachedBlobStore<MemoryBlobStore>>,
+    issued_b: Vec<u32>,
+}
+
+#[derive(Clone, Copy, PartialEq, Eq, Debug)]
+pub enum CbCtor {
+    /// CachedBlobStore::with_write_strategy
+    WithWriteStrategy,
+    /// CachedBlobStore::new (write-through)
+    New,
+    /// two stores built with with_cache_and_strategy / with_cache on one shared Arc<LruPageCache>
+    SharedCache,
 }
 
 pub struct CbSpec {
@@ -948,6 +1502,46 @@ pub struct CbSpec {
     pub pages: usize,
     pub depth_quick: usize,
     pub depth_thorough: usize,
+    pub ctor: CbCtor,
+    /// the operations appended by the coverage audit are in the alphabet
+    pub extended: bool,
+}
+
+fn next_strategy(s: CacheWriteStrategy) -> CacheWriteStrategy {
+    match s {
+        CacheWriteStrategy::WriteThrough => CacheWriteStrategy::WriteBack,
+        CacheWriteStrategy::WriteBack => CacheWriteStrategy::WriteAround,
+        CacheWriteStrategy::WriteAround => CacheWriteStrategy::WriteThrough,
+    }
+}
+
+fn cb_compare(which: &str, store: &CachedBlobStore<MemoryBlobStore>, issued: &[u32], h: &mut DefaultHasher) -> Result<(), Fail> {
+    issued.hash(h);
+    let max = issued.iter().copied().max().unwrap_or(0);
+    for id in (0..=max + 1).chain([u32::MAX]) {
+        let outer = store.get(id);
+        let inner = store.inner().get(id);
+        inner.is_ok().hash(h);
+        match (&outer, &inner) {
+            (Ok(a), Ok(b)) => {
+                if a != b {
+                    return Err(failc("cached_eq_inner", "wrong_bytes", format!("{which}get({id}) = {} through the cache, the wrapped store holds {}", brief(a), brief(b))));
+                }
+            }
+            (Err(_), Err(_)) => {}
+            (Ok(a), Err(_)) => return Err(failc("cached_eq_inner", "served_absent", format!("{which}get({id}) = Ok({}) through the cache, the wrapped store reports the id absent", brief(a)))),
+            (Err(e), Ok(b)) => return Err(failc("cached_eq_inner", "err", format!("{which}get({id}) = Err({e}) through the cache, the wrapped store holds {}", brief(b)))),
+        }
+        let (c1, c2) = (store.contains(id), store.inner().contains(id));
+        check!(c1 == c2, "cached_eq_inner", "{which}contains({id}) = {c1} through the cache, {c2} in the wrapped store");
+        let (s1, s2) = (store.size(id).ok().flatten(), store.inner().size(id).ok().flatten());
+        check!(s1 == s2, "cached_eq_inner", "{which}size({id}) = {:?} through the cache, {:?} in the wrapped store", s1, s2);
+    }
+    let (l1, l2) = (store.len(), store.inner().len());
+    check!(l1 == l2, "cached_eq_inner", "{which}len() = {l1} through the cache, {l2} in the wrapped store");
+    let (e1, e2) = (store.is_empty(), store.inner().is_empty());
+    check!(e1 == e2, "cached_eq_inner", "{which}is_empty() = {e1} through the cache, {e2} in the wrapped store");
+    Ok(())
 }
 
 impl SeqSpec for CbSpec {
@@ -961,13 +1555,26 @@ impl SeqSpec for CbSpec {
     }
     fn bound(&self, tier: Tier) -> String {
         format!(
-            "all histories of <= {} operations from {{put(r) r in [e, zz, c300, p4000], remove(j-th most recent id) j<2, disable_cache, enable_cache}}; after every step get/contains/size/len of the cached store are compared with the wrapped store (inner()) on ids 0..=max+1",
-            self.depth(tier)
+            "all histories of <= {} operations from {{put(r) r in [e, zz, c300, p4000], remove(j-th most recent id) j<2, disable_cache, enable_cache}}; after every step get/contains/size/len of the cached store are compared with the wrapped store (inner()) on ids 0..=max+1{}{}; constructor {:?}",
+            self.depth(tier),
+            if self.extended { "; coverage audit: further operations put(q9000 = 9000 bytes, more than two cache pages), set_write_strategy(next), prefetch_range, flush, put/remove directly on the wrapped store through inner_mut()" } else { "" },
+            if self.ctor == CbCtor::SharedCache { ", put/remove on a second cached store that shares the page cache (both stores are compared with their own wrapped store)" } else { "" },
+            self.ctor
         )
     }
     fn init(&self, _scratch: &Path) -> Result<CbSt, Fail> {
-        let store = CachedBlobStore::with_write_strategy(MemoryBlobStore::new(), page_cfg(self.pages), self.strategy).map_err(|e| Fail::new("construct", e.to_string()))?;
-        Ok(CbSt { store, issued: Vec::new() })
+        let err = |e: zipora::error::ZiporaError| Fail::new("construct", e.to_string());
+        let (store, store_b) = match self.ctor {
+            CbCtor::WithWriteStrategy => (CachedBlobStore::with_write_strategy(MemoryBlobStore::new(), page_cfg(self.pages), self.strategy).map_err(err)?, None),
+            CbCtor::New => (CachedBlobStore::new(MemoryBlobStore::new(), page_cfg(self.pages)).map_err(err)?, None),
+            CbCtor::SharedCache => {
+                let cache = Arc::new(LruPageCache::new(page_cfg(self.pages)).map_err(err)?);
+                let a = CachedBlobStore::with_cache_and_strategy(MemoryBlobStore::new(), cache.clone(), self.strategy).map_err(err)?;
+                let b = CachedBlobStore::with_cache(MemoryBlobStore::new(), cache).map_err(err)?;
+                (a, Some(b))
+            }
+        };
+        Ok(CbSt { store, issued: Vec::new(), store_b, issued_b: Vec::new() })
     }
     fn ops(&self, st: &CbSt) -> Vec<CbOp> {
         let mut v: Vec<CbOp> = ["e", "zz", "c300", "p4000"].into_iter().map(CbOp::Put).collect();
@@ -976,6 +1583,24 @@ impl SeqSpec for CbSpec {
         }
         v.push(CbOp::DisableCache);
         v.push(CbOp::EnableCache);
+        if !self.extended {
+            return v;
+        }
+        v.push(CbOp::Put("q9000"));
+        v.push(CbOp::NextStrategy);
+        v.push(CbOp::PrefetchRange);
+        v.push(CbOp::Flush);
+        v.push(CbOp::InnerPut("zz"));
+        if !st.issued.is_empty() {
+            v.push(CbOp::InnerRemove(0));
+        }
+        if self.ctor == CbCtor::SharedCache {
+            v.push(CbOp::PutB("c300"));
+            v.push(CbOp::PutB("p4000"));
+            if !st.issued_b.is_empty() {
+                v.push(CbOp::RemoveB(0));
+            }
+        }
         v
     }
     fn apply(&self, st: &mut CbSt, op: &CbOp) -> Result<(), Fail> {
@@ -992,33 +1617,46 @@ impl SeqSpec for CbSpec {
             }
             CbOp::DisableCache => st.store.disable_cache(),
             CbOp::EnableCache => st.store.enable_cache(),
+            CbOp::NextStrategy => {
+                let n = next_strategy(st.store.write_strategy());
+                st.store.set_write_strategy(n);
+                check!(st.store.write_strategy() == n, "cached_eq_inner", "write_strategy() after set_write_strategy({:?}) = {:?}", n, st.store.write_strategy());
+            }
+            CbOp::PrefetchRange => {
+                let _ = st.store.prefetch_range(0, 2 * PAGE_SIZE);
+            }
+            CbOp::Flush => {
+                let _ = st.store.flush();
+            }
+            CbOp::InnerPut(r) => {
+                if let Ok(id) = st.store.inner_mut().put(&cb_record(r)) {
+                    st.issued.retain(|x| *x != id);
+                    st.issued.push(id);
+                }
+            }
+            CbOp::InnerRemove(j) => {
+                let id = st.issued[st.issued.len() - 1 - j];
+                let _ = st.store.inner_mut().remove(id);
+            }
+            CbOp::PutB(r) => {
+                let b = st.store_b.as_mut().expect("SharedCache subject");
+                if let Ok(id) = b.put(&cb_record(r)) {
+                    st.issued_b.retain(|x| *x != id);
+                    st.issued_b.push(id);
+                }
+            }
+            CbOp::RemoveB(j) => {
+                let id = st.issued_b[st.issued_b.len() - 1 - j];
+                let _ = st.store_b.as_mut().expect("SharedCache subject").remove(id);
+            }
         }
         Ok(())
     }
     fn observe(&self, st: &mut CbSt, h: &mut DefaultHasher) -> Result<(), Fail> {
-        st.issued.hash(h);
-        let max = st.issued.iter().copied().max().unwrap_or(0);
-        for id in (0..=max + 1).chain([u32::MAX]) {
-            let outer = st.store.get(id);
-            let inner = st.store.inner().get(id);
-            inner.is_ok().hash(h);
-            match (&outer, &inner) {
-                (Ok(a), Ok(b)) => {
-                    if a != b {
-                        return Err(failc("cached_eq_inner", "wrong_bytes", format!("get({id}) = {} through the cache, the wrapped store holds {}", brief(a), brief(b))));
-                    }
-                }
-                (Err(_), Err(_)) => {}
-                (Ok(a), Err(_)) => return Err(failc("cached_eq_inner", "served_absent", format!("get({id}) = Ok({}) through the cache, the wrapped store reports the id absent", brief(a)))),
-                (Err(e), Ok(b)) => return Err(failc("cached_eq_inner", "err", format!("get({id}) = Err({e}) through the cache, the wrapped store holds {}", brief(b)))),
-            }
-            let (c1, c2) = (st.store.contains(id), st.store.inner().contains(id));
-            check!(c1 == c2, "cached_eq_inner", "contains({id}) = {c1} through the cache, {c2} in the wrapped store");
-            let (s1, s2) = (st.store.size(id).ok().flatten(), st.store.inner().size(id).ok().flatten());
-            check!(s1 == s2, "cached_eq_inner", "size({id}) = {:?} through the cache, {:?} in the wrapped store", s1, s2);
+        cb_compare("", &st.store, &st.issued, h)?;
+        if let Some(b) = &st.store_b {
+            cb_compare("store B: ", b, &st.issued_b, h)?;
         }
-        let (l1, l2) = (st.store.len(), st.store.inner().len());
-        check!(l1 == l2, "cached_eq_inner", "len() = {l1} through the cache, {l2} in the wrapped store");
         Ok(())
     }
 }
@@ -1027,8 +1665,28 @@ fn register_cached_store(reg: &mut zverif::Registry) {
     for (sname, strategy) in
         [("WriteThrough", CacheWriteStrategy::WriteThrough), ("WriteBack", CacheWriteStrategy::WriteBack), ("WriteAround", CacheWriteStrategy::WriteAround)]
     {
-        reg.add(Seq(CbSpec { name: format!("CachedBlobStore<Memory>[{sname},pages=1]/vs_inner"), strategy, pages: 1, depth_quick: 4, depth_thorough: 6 }));
+        reg.add(Seq(CbSpec { name: format!("CachedBlobStore<Memory>[{sname},pages=1]/vs_inner"), strategy, pages: 1, depth_quick: 4, depth_thorough: 6, ctor: CbCtor::WithWriteStrategy, extended: false }));
     }
+    reg.add(Seq(CbSpec {
+        name: "CachedBlobStore<Memory>[WriteThrough,pages=1]/vs_inner/all operations".into(),
+        strategy: CacheWriteStrategy::WriteThrough,
+        pages: 1,
+        depth_quick: 3,
+        depth_thorough: 5,
+        ctor: CbCtor::WithWriteStrategy,
+        extended: true,
+    }));
+    // coverage audit: the other constructors; two stores on one shared cache (their blob offsets overlap in the shared page space)
+    reg.add(Seq(CbSpec { name: "CachedBlobStore<Memory>::new[pages=2]/vs_inner".into(), strategy: CacheWriteStrategy::WriteThrough, pages: 2, depth_quick: 3, depth_thorough: 5, ctor: CbCtor::New, extended: true }));
+    reg.add(Seq(CbSpec {
+        name: "CachedBlobStore<Memory> x2 on one shared cache[WriteBack+WriteThrough,pages=1]/vs_inner".into(),
+        strategy: CacheWriteStrategy::WriteBack,
+        pages: 1,
+        depth_quick: 3,
+        depth_thorough: 5,
+        ctor: CbCtor::SharedCache,
+        extended: true,
+    }));
 }
 
 // =============================================================================================
@@ -1040,6 +1698,9 @@ pub enum FsaOp {
     Cache(u32, u32, bool),
     Remove(usize),
     Clear,
+    // ---- coverage audit (appended) ----
+    /// add_zero_path(j-th most recent id, one segment)
+    AddZeroPath(usize, &'static str),
 }
 
 pub struct FsaSt {
@@ -1047,6 +1708,8 @@ pub struct FsaSt {
     /// id -> last state cached under that id (None = removed by the caller)
     last: BTreeMap<u32, Option<(u32, u32, bool)>>,
     issued: Vec<u32>,
+    /// id -> zero path attached to the CURRENT incarnation of that id (a re-issued id starts without one)
+    zero: BTreeMap<u32, Vec<u8>>,
 }
 
 pub struct FsaSpec {
@@ -1055,28 +1718,42 @@ pub struct FsaSpec {
     pub max_states: usize,
     pub depth_quick: usize,
     pub depth_thorough: usize,
+    /// add_zero_path and a state with extreme field values are in the alphabet; get_zero_path is observed
+    pub zero_paths: bool,
+    /// number of cache_state calls of the scripted prefix (alternating terminal / non-terminal)
+    pub prefill: usize,
+    pub suffix: &'static str,
 }
 
 impl SeqSpec for FsaSpec {
     type Op = FsaOp;
     type St = FsaSt;
     fn name(&self) -> String {
-        self.name.clone()
+        format!("{}{}", self.name, self.suffix)
     }
     fn depth(&self, tier: Tier) -> usize {
         tier.pick(self.depth_quick, self.depth_thorough)
     }
     fn bound(&self, tier: Tier) -> String {
         format!(
-            "all histories of <= {} operations from {{cache_state(parent,base,terminal) for 3 states, remove_state(j-th most recent id) j<2, clear}}; max_states = {}; after every step: at most max_states ids answer get_state, stats().cached_states <= max_states, get_state(id) is None or the last state cached under that id, removed ids answer None",
+            "all histories of <= {} operations from {{cache_state(parent,base,terminal) for 3 states, remove_state(j-th most recent id) j<2, clear}}; max_states = {}; after every step: at most max_states ids answer get_state, stats().cached_states <= max_states, get_state(id) is None or the last state cached under that id, removed ids answer None{}{}",
             self.depth(tier),
-            self.max_states
+            self.max_states,
+            if self.zero_paths { "; coverage audit: further operations add_zero_path(j-th most recent id, segment) j<2 and cache_state(0xFFFFFF, u32::MAX, true); get_zero_path(id) is None or the path attached to the current incarnation of a retrievable state (a re-issued id must not show the path of its predecessor)" } else { "" },
+            if self.prefill > 0 { format!("; every history starts after {} cache_state calls (max_states/10 >= 2: an eviction removes several states at once), the most recent one carrying a zero path", self.prefill) } else { String::new() }
         )
     }
     fn init(&self, _scratch: &Path) -> Result<FsaSt, Fail> {
         let cfg = FsaCacheConfig { max_states: self.max_states, strategy: self.strategy, ..FsaCacheConfig::small() };
         let cache = FsaCache::with_config(cfg).map_err(|e| Fail::new("construct", e.to_string()))?;
-        Ok(FsaSt { cache, last: BTreeMap::new(), issued: Vec::new() })
+        let mut st = FsaSt { cache, last: BTreeMap::new(), issued: Vec::new(), zero: BTreeMap::new() };
+        for i in 0..self.prefill {
+            self.apply(&mut st, &FsaOp::Cache(100 + i as u32, 1000 + i as u32, i % 2 == 1))?;
+            if i % 3 == 0 {
+                self.apply(&mut st, &FsaOp::AddZeroPath(0, "pre"))?;
+            }
+        }
+        Ok(st)
     }
     fn ops(&self, st: &FsaSt) -> Vec<FsaOp> {
         let mut v = vec![FsaOp::Cache(0, 10, false), FsaOp::Cache(1, 20, true), FsaOp::Cache(2, 30, false)];
@@ -1084,12 +1761,28 @@ impl SeqSpec for FsaSpec {
             v.push(FsaOp::Remove(j));
         }
         v.push(FsaOp::Clear);
+        if self.zero_paths {
+            for j in 0..st.issued.len().min(2) {
+                v.push(FsaOp::AddZeroPath(j, if j == 0 { "x" } else { "yz" }));
+            }
+            v.push(FsaOp::Cache(0x00FF_FFFF, u32::MAX, true));
+        }
         v
     }
     fn apply(&self, st: &mut FsaSt, op: &FsaOp) -> Result<(), Fail> {
         match *op {
+            FsaOp::AddZeroPath(j, seg) => {
+                let id = st.issued[st.issued.len() - 1 - j];
+                let mut z = zipora::fsa::cache::ZeroPathData::new();
+                z.add_segment(seg.as_bytes()).map_err(|e| Fail::new("harness", e.to_string()))?;
+                // Err = the state is not cached (evicted / removed): nothing attached
+                if st.cache.add_zero_path(id, z).is_ok() {
+                    st.zero.insert(id, seg.as_bytes().to_vec());
+                }
+            }
             FsaOp::Cache(p, b, t) => {
                 if let Ok(id) = st.cache.cache_state(p, b, t) {
+                    st.zero.remove(&id);
                     st.last.insert(id, Some((p, b, t)));
                     st.issued.retain(|x| *x != id);
                     st.issued.push(id);
@@ -1099,9 +1792,11 @@ impl SeqSpec for FsaSpec {
                 let id = st.issued[st.issued.len() - 1 - j];
                 let _ = st.cache.remove_state(id);
                 st.last.insert(id, None);
+                st.zero.remove(&id);
             }
             FsaOp::Clear => {
                 st.cache.clear();
+                st.zero.clear();
                 for v in st.last.values_mut() {
                     *v = None;
                 }
@@ -1111,12 +1806,21 @@ impl SeqSpec for FsaSpec {
     }
     fn observe(&self, st: &mut FsaSt, h: &mut DefaultHasher) -> Result<(), Fail> {
         st.last.hash(h);
+        st.zero.hash(h);
         let max = st.issued.iter().copied().max().unwrap_or(0);
         let mut present = 0usize;
         for id in 0..=max + 1 {
             let got = st.cache.get_state(id).map(|s| (s.parent(), s.child_base, s.is_terminal()));
             if got.is_some() {
                 present += 1;
+            }
+            if let Some(z) = st.cache.get_zero_path(id).map(|z| z.get_full_path()) {
+                if got.is_none() {
+                    return Err(failc("get", "ghost_zero_path", format!("get_zero_path({id}) = {:?} although get_state({id}) is None", z)));
+                }
+                if st.zero.get(&id) != Some(&z) {
+                    return Err(failc("get", "stale_zero_path", format!("get_zero_path({id}) = {:?}, the path attached to the current state {id} is {:?}", z, st.zero.get(&id))));
+                }
             }
             match (got, st.last.get(&id).copied().flatten()) {
                 (None, _) => {}
@@ -1140,8 +1844,11 @@ impl SeqSpec for FsaSpec {
 fn register_fsa(reg: &mut zverif::Registry) {
     for (sname, strategy) in [("BreadthFirst", CacheStrategy::BreadthFirst), ("DepthFirst", CacheStrategy::DepthFirst), ("CacheFriendly", CacheStrategy::CacheFriendly)] {
         for max_states in [1usize, 2] {
-            reg.add(Seq(FsaSpec { name: format!("FsaCache[{sname},max_states={max_states}]"), strategy, max_states, depth_quick: 5, depth_thorough: 7 }));
+            reg.add(Seq(FsaSpec { name: format!("FsaCache[{sname},max_states={max_states}]"), strategy, max_states, depth_quick: 5, depth_thorough: 7, zero_paths: false, prefill: 0, suffix: "" }));
         }
+        // coverage audit
+        reg.add(Seq(FsaSpec { name: format!("FsaCache[{sname},max_states=2]"), strategy, max_states: 2, depth_quick: 4, depth_thorough: 6, zero_paths: true, prefill: 0, suffix: "/zero_paths" }));
+        reg.add(Seq(FsaSpec { name: format!("FsaCache[{sname},max_states=20]"), strategy, max_states: 20, depth_quick: 3, depth_thorough: 4, zero_paths: true, prefill: 20, suffix: "/zero_paths/after[20 states]" }));
     }
 }
 
@@ -1149,6 +1856,7 @@ fn main() {
     zverif::main_with("C17", |reg, _tier| {
         register_maps(reg);
         register_page_caches(reg);
+        register_buffers(reg);
         register_cached_store(reg);
         register_fsa(reg);
     });
